@@ -488,19 +488,51 @@ theorem udpRecv_good (w : World) (n : Nat) (pkt : Bytes) (g : Good w) : Good (ud
     | (rename_i hp; exact udp_handle _ _ _ (fun _ => rfl) (ga _) hp)
     | split
 
+/-- a packet from association `k`: a new request object, `radsrv` -/
+theorem rq_good (w : World) (k : Nat) (pkt : Bytes) (g : Good w) :
+    Good (radsrv (updRq (newrequest w).1 (newrequest w).2 fun r => { r with buf := some pkt, frm := some k }) (newrequest w).2).1 := by
+  have h1 := newrequest_inv w (fun _ => 0) g.inv g.fresh
+  have t1 := tame_newrequest w
+  have r1 : Run (newrequest w).1 (fun _ => 0) (newrequest w).2 := ⟨h1, t1.wf g.wf⟩
+  have r2 : Run (updRq (newrequest w).1 (newrequest w).2 fun r => { r with buf := some pkt, frm := some k }) (fun _ => 0) (newrequest w).2 :=
+    ⟨updRq_inv _ _ _ _ (fun _ => rfl) r1.inv, (tame_updRq _ _ _).wf r1.wf⟩
+  exact g.of (radsrv_inv _ _ _ r2) (Tame.trans (Tame.trans t1 (tame_updRq _ _ _)) (tame_radsrv _ _ r2.wf))
+
+attribute [local irreducible] World.radsrv World.popReplies Stream.radGet in
+theorem tcpServe_good (fuel : Nat) (w : World) (k : Nat) (s : Stream.Sock) (g : Good w) : Good (tcpServe w k fuel s) := by
+  induction fuel generalizing w s with
+  | zero => exact g
+  | succ n ih =>
+    unfold tcpServe
+    split
+    · rename_i b s' _
+      simp only
+      have g1 := rq_good w k b g
+      have g2 : Good (popReplies (radsrv (updRq (newrequest w).1 (newrequest w).2 fun r => { r with buf := some b, frm := some k }) (newrequest w).2).1 k).1 :=
+        g1.of (popReplies_inv _ _ k g1.inv) (tame_popReplies _ k)
+      have g3 : ∀ (W : World), Good W → ∀ evs, Good { W with events := evs } := by
+        intro W gW evs
+        exact gW.of (same_inv W { W with events := evs } _ rfl rfl rfl rfl gW.inv) (tame_same W { W with events := evs } rfl rfl rfl)
+      split
+      · exact g3 _ g2 _
+      · exact ih _ _ (g3 _ g2 _)
+    · exact g
+
+theorem tcpConn_good (w : World) (src : Bytes) (script : List Stream.Ev) (g : Good w) : Good (tcpConn w src script) := by
+  unfold tcpConn
+  cases tcpFindConf w src with
+  | none => exact g
+  | some conf =>
+    simp only
+    have g1 := client_good' w { conf := conf } g ⟨rfl, rfl⟩
+    have g2 := tcpServe_good ((Stream.dataOf script).length + script.length + 4) _ w.clients.length { script := script } g1
+    exact g2.of (removeclient_inv _ _ _ g2.inv) (tame_removeclient _ _)
+
 /-- **every operation keeps the counts right** -/
 theorem step_good (w : World) (op : Op) (g : Good w) : Good (step w op) := by
   cases op with
   | client conf => exact client_good w conf g
-  | rq ci pkt =>
-    unfold step
-    simp only
-    have h1 := newrequest_inv w (fun _ => 0) g.inv g.fresh
-    have t1 := tame_newrequest w
-    have r1 : Run (newrequest w).1 (fun _ => 0) (newrequest w).2 := ⟨h1, t1.wf g.wf⟩
-    have r2 : Run (updRq (newrequest w).1 (newrequest w).2 fun r => { r with buf := some pkt, frm := some ci }) (fun _ => 0) (newrequest w).2 :=
-      ⟨updRq_inv _ _ _ _ (fun _ => rfl) r1.inv, (tame_updRq _ _ _).wf r1.wf⟩
-    exact g.of (radsrv_inv _ _ _ r2) (Tame.trans (Tame.trans t1 (tame_updRq _ _ _)) (tame_radsrv _ _ r2.wf))
+  | rq ci pkt => exact rq_good w ci pkt g
   | reply si buf => exact g.of (replyh_inv w _ si buf g.inv) (tame_replyh w si buf)
   | writer si => exact writerOp_good w si g
   | tick n => exact g.of (same_inv w _ _ rfl rfl rfl rfl g.inv) (tame_same w _ rfl rfl rfl)
@@ -514,6 +546,7 @@ theorem step_good (w : World) (op : Op) (g : Good w) : Good (step w op) := by
   | udplisten => exact udpLoopTop_good w g
   | udpnas ip => exact g.of (same_inv w _ _ rfl rfl rfl rfl g.inv) (tame_same w _ rfl rfl rfl)
   | udpsend n pkt => exact udpLoopTop_good _ (udpRecv_good w n pkt g)
+  | tcpconn src script => exact tcpConn_good w src script g
 
 /-! ### every history -/
 
